@@ -217,3 +217,88 @@ contract('harness:nf_endpoints', harness=H_NF_END, module='gnpy.core.elements', 
                   ('nf_max_at_min_gain', '-0.01 <= result[1] - nf_max and result[1] - nf_max <= 0.01'),
                   ('first_coil_at_least_4dB', 'result[2] >= 4')],
          modifies=[])
+
+# ---------------------------------------------------------------- Edfa propagation (C04, C01, C02, C05)
+# ASSUMED (numerical: polyfit + one secant step): the gain profile is one value per channel.  The claim "its
+# power-weighted mean equals the effective gain" is checked bounded in bounded/gain_profile.py.
+contract('gnpy.core.elements.Edfa._gain_profile', trusted=True, props=[],
+         params={'self': EDFA(), 'pin': vec('n'), 'err_tolerance': real(), 'simple_opt': boolean()},
+         ensures=[], returns=vec_len('len(pin)'), pure=True,
+         note='ASSUMED: returns one gain value (dB) per channel; normalisation to effective_gain is a bounded check')
+
+for _avg in (True, False):
+    contract('gnpy.core.elements.Edfa._calc_nf', name=f'gnpy.core.elements.Edfa._calc_nf[single stage, avg={_avg}]', props=['C04'],
+             params={'self': EDFA('variable_gain'), 'avg': const(_avg)}, spec=SPEC_NF,
+             let={'p': 'self.params'},
+             ensures=([('avg', 'result == NFVG(p.nf_model, p.gain_min, p.gain_flatmax, self.effective_gain)')] if _avg else
+                      [('per_channel', 'forall(lambda i: result[i] == self.interpol_nf_ripple[i] + '
+                                       'NFVG(p.nf_model, p.gain_min, p.gain_flatmax, self.effective_gain), len(self.interpol_nf_ripple))')]) +
+                     [('pad_recorded', 'self.att_in == (p.gain_min - self.effective_gain if p.gain_min > self.effective_gain else 0)')],
+             modifies=['self.att_in'], use_at_calls=False)
+
+contract('gnpy.core.elements.Edfa._calc_nf', name='gnpy.core.elements.Edfa._calc_nf[dual stage]', props=['C04'],
+         params={'self': EDFA('dual_stage'), 'avg': const(True)}, spec=SPEC_NF,
+         let={'p': 'self.params', 'g1': 'self.params.preamp_gain_flatmax'},
+         # Friis: nf = nf_pre(g1) + nf_boost(g - g1) / g1, the preamp at its maximum flat gain
+         ensures=[('friis', 'spec_db2lin(result) == spec_db2lin(NFVG(p.preamp_nf_model, p.preamp_gain_min, p.preamp_gain_flatmax, g1)) + '
+                            'spec_db2lin(NFVG(p.booster_nf_model, p.booster_gain_min, p.booster_gain_flatmax, self.effective_gain - g1)) / spec_db2lin(g1)'),
+                  ('no_pad', 'self.att_in == 0')],
+         modifies=['self.att_in'], use_at_calls=False)
+
+contract('gnpy.core.elements.Edfa.noise_profile', props=['C04'],
+         params={'self': EDFA(), 'spectral_info': SI()},
+         # quantum-limited ASE referred to the input: h * f * B * NF
+         ensures=[('ase', 'forall(lambda i: result[i] == 6.62607015e-34 * spectral_info._frequency[i] * '
+                          'spectral_info._baud_rate[i] * spec_db2lin(self.nf[i]), NCH(spectral_info))'),
+                  ('len', 'len(result) == NCH(spectral_info)')],
+         spec=SPEC_INV, returns=vec_len('NCH(spectral_info)'), pure=True, modifies=[])
+
+_IP_MOD = [('self.channel_freq', vec_len('NCH(spectral_info)')), ('self.interpol_dgt', vec_len('NCH(spectral_info)')),
+           ('self.interpol_gain_ripple', vec_len('NCH(spectral_info)')), ('self.interpol_nf_ripple', vec_len('NCH(spectral_info)')),
+           ('self.nch', integer()), ('self.pin_db', real()), ('self.slot_width', real()), ('self.effective_gain', real()),
+           ('self.nf', vec_len('NCH(spectral_info)')), ('self.gprofile', vec_len('NCH(spectral_info)')),
+           ('self.pout_db', real()), ('self.att_in', real())]
+
+contract('gnpy.core.elements.Edfa.interpol_params', props=['C04'],
+         params={'self': EDFA('variable_gain'), 'spectral_info': SI()}, spec=SPEC_EL + SPEC_NF,
+         let={'p': 'self.params', 'n': 'NCH(spectral_info)'},
+         requires=[('inv', 'INV(spectral_info)')],
+         # a one-channel spectrum cannot be amplified (slot width is taken from the first two channels): finding F16
+         raises={'IndexError': 'NCH(spectral_info) < 2'},
+         ensures=[('pin_is_total_input_power', 'self.pin_db == W(sum(spectral_info._pch))'),
+                  # saturation clamp on TOTAL power: reduced only as far as needed
+                  ('clamp', 'self.effective_gain == (old(self.effective_gain) if old(self.effective_gain) <= p.p_max - self.pin_db '
+                            'else p.p_max - self.pin_db)'),
+                  ('never_above_p_max', 'self.pin_db + self.effective_gain <= p.p_max'),
+                  ('nf_model', 'forall(lambda i: self.nf[i] == self.interpol_nf_ripple[i] + '
+                               'NFVG(p.nf_model, p.gain_min, p.gain_flatmax, self.effective_gain), n)'),
+                  ('nch', 'self.nch == n')],
+         modifies=_IP_MOD)
+
+contract('gnpy.core.elements.Edfa.propagate', props=['C04', 'C01', 'C02', 'C05'],
+         params={'self': EDFA('variable_gain'), 'spectral_info': SI()}, spec=SPEC_EL + SPEC_NF,
+         let={'p': 'self.params', 'n': 'NCH(spectral_info)', 'si': 'spectral_info',
+              'voa_in': '(1 if self.in_voa is None else spec_db2lin(self.in_voa))'},
+         requires=[('inv', 'INV(spectral_info)'),
+                   ('physical', 'forall(lambda i: si._frequency[i] > 0 and si._baud_rate[i] > 0, n)')],
+         raises={'IndexError': 'NCH(spectral_info) < 2'},
+         ensures=[('inv', 'INV(spectral_info)'),
+                  # total input power is taken after the input VOA
+                  ('pin_after_in_voa', 'self.pin_db == W(sum(old(si._pch) / voa_in))' ),
+                  ('never_above_p_max', 'self.pin_db + self.effective_gain <= p.p_max'),
+                  ('clamp', 'self.effective_gain == (old(self.effective_gain) if old(self.effective_gain) <= p.p_max - self.pin_db '
+                            'else p.p_max - self.pin_db)'),
+                  # ASE = h f B NF at the input, then the channel gain applies to signal and noise alike
+                  ('power', 'forall(lambda i: si._pch[i] == (old(si._pch)[i] / voa_in + 6.62607015e-34 * si._frequency[i] * '
+                            'si._baud_rate[i] * spec_db2lin(self.nf[i])) * spec_db2lin(self.gprofile[i] - self.out_voa), n)'),
+                  ('ase_added', 'forall(lambda i: si._ase_ratio[i] * si._pch[i] == (old(si._ase_ratio)[i] * old(si._pch)[i] / voa_in + '
+                                '6.62607015e-34 * si._frequency[i] * si._baud_rate[i] * spec_db2lin(self.nf[i])) * '
+                                'spec_db2lin(self.gprofile[i] - self.out_voa), n)'),
+                  ('snr_nli_kept', 'forall(lambda i: si._signal_ratio[i] * old(si._nli_ratio)[i] == old(si._signal_ratio)[i] * si._nli_ratio[i], n)'),
+                  ('osnr_ase_not_up', 'forall(lambda i: si._signal_ratio[i] * old(si._ase_ratio)[i] <= old(si._signal_ratio)[i] * si._ase_ratio[i], n)'),
+                  ('gsnr_not_up', 'forall(lambda i: si._signal_ratio[i] <= old(si._signal_ratio)[i], n)'),
+                  ('pmd_quadrature', 'forall(lambda i: si._pmd[i] ** 2 == old(si._pmd)[i] ** 2 + p.pmd ** 2 and si._pmd[i] >= 0, n)'),
+                  ('pdl_quadrature', 'forall(lambda i: si._pdl[i] ** 2 == old(si._pdl)[i] ** 2 + p.pdl ** 2 and si._pdl[i] >= 0, n)')],
+         modifies=_IP_MOD + ['spectral_info._pch', 'spectral_info._signal_ratio', 'spectral_info._ase_ratio',
+                             'spectral_info._nli_ratio', 'spectral_info._pmd', 'spectral_info._pdl',
+                             ('self.pch_out_dbm', vec_len('NCH(spectral_info)')), 'self.propagated_labels'])
